@@ -86,4 +86,47 @@ CHECKS = {
         "trusted_base": ["the final float64 division of the balance and JSON formatting are recomputed by the harness with math/big, not modelled"],
         "assumptions": ["the balance is the uint64 (wrapping) sum; equal to the exact sum below 2^64"],
     },
+    "C01": {
+        "suites": chain_suites(1),
+        "monitor_props": ["C01"],
+        "mismatch_kinds": ["admit", "validate", "update"],
+        "rule": CHAIN_RULE + " For C01 the fault stream includes output multisets summing to 2^64+k and to 2^64-1, fees one below and exactly the minimum, rewards one above the fees; the monitor recomputes every transaction's and block's bound with big integers from the served chain.",
+        "trusted_base": CHAIN_TB,
+        "assumptions": ["Utxo.Value is an oracle here (C09 treats the function)", "minimal fee >= 1",
+                        "production ticks are aligned (C20): with an unaligned tick the producer values same-block outputs at a negative age"],
+    },
+    "C03": {
+        "suites": chain_suites(3),
+        "monitor_props": ["C03"],
+        "mismatch_kinds": ["admit", "validate", "update"],
+        "rule": CHAIN_RULE + " For C03 the fault stream corrupts exactly one field of a valid input: another wallet's key, another reference, altered s, r = 0, s = 0, r >= n, upper-case hex (must be accepted); on admission, in production and in candidate blocks.",
+        "trusted_base": CHAIN_TB + ["ECDSA verification itself (zero / over-range halves, malleability) is inside the sig_ok oracle: the theorems show every path calls the check on the right message and key; the answers of ecdsa.Verify are recorded, not proved"],
+        "assumptions": ["sig_ok and addr_of are oracles (recorded per input from the run)"],
+    },
+    "C04": {
+        "suites": chain_suites(4),
+        "monitor_props": ["C04"],
+        "mismatch_kinds": ["validate", "update"],
+        "rule": CHAIN_RULE + " For C04 the mutated neighbors break one rule at one height: timestamp shifted, tail in the future, two rewards, no reward, transaction dated after its block or before the previous one, broken link, truncated, first block dropped; production ticks are aligned, repeated, skipped and (for the correspondence only) unaligned.",
+        "trusted_base": CHAIN_TB,
+        "assumptions": ["minimal fee >= 1, validation interval >= 0, SHA-256 collision-free on the blocks involved (blocks whose hash equals the host's block are not re-verified)",
+                        "no tip is dated 0 (the code uses timestamp 0 as 'empty chain': C04_chain_ok_refuted shows the edge; real timestamps are Unix nanoseconds)",
+                        "production ticks are the aligned ones the engine delivers (C20); the first block of a fully re-synced chain is not verified (exempt in the property)"],
+    },
+    "C07": {
+        "suites": chain_suites(7, extra=[{"suite": "catchup", "n_quick": 16, "n_thorough": 400, "shards": 4, "shards_thorough": 16}]),
+        "monitor_props": ["C07"],
+        "mismatch_kinds": ["validate", "update", "admit", "regsync"],
+        "rule": CHAIN_RULE + " For C07 the monitor replays the node's own served chain minus its last block on fresh registries after every operation and compares Utxos(a) and IsRegistered(a) for the address universe; incremental adoption, tip swaps and full re-syncs (also onto a different first block) all occur.",
+        "trusted_base": CHAIN_TB,
+        "assumptions": ["operation granularity: concurrency inside an operation is C16's business", "no neighbor target is literally \"host\""],
+    },
+    "C12": {
+        "suites": chain_suites(12),
+        "monitor_props": ["C12"],
+        "mismatch_kinds": ["validate", "update", "regsync"],
+        "rule": CHAIN_RULE + " For C12 every block hash observed at a height is re-observed after every later operation (production, registry refresh, candidate verification that is later rejected, queries) as long as the chain below it was not replaced by a sync round; registry refreshes mark any subset of addresses invalid so that blocks carry 0, 1, 2 or more pending removals.",
+        "trusted_base": CHAIN_TB + ["Go slice aliasing is not modelled: the model's values are immutable, so an in-place edit of a chained block shows up as a correspondence difference on the block hash (that is how the pinned tree's defect D2 appears)"],
+        "assumptions": ["'identical content and hash' is definitional for immutable model values; the theorem content is which heights may change and that the chain is hash-linked in every reachable state"],
+    },
 }
